@@ -56,7 +56,7 @@ def canon_gen(root, hroot, fname):
         recs.append({
             "path": r["path"], "dir": r["is_dir"], "size": r["size"],
             "entries": [[f, d, a, s] for (f, d, a, _, s) in r["entries"]],
-            "prev": r["previous"],
+            "prev": "" if r["previous"] == "." else r["previous"],      # the folder of the history itself: "." in the file, the empty path in the model
         })
     refs = []
     for (p, c4) in man["refs"]:
